@@ -4,7 +4,7 @@ and re-run the quick tier of the checks recorded as detecting it; a check that n
 Also usable for benign/: --benign expects rc=0 from every check."""
 import os, sys, json, subprocess, concurrent.futures as cf, argparse, shutil
 ROOT = os.path.dirname(os.path.dirname(os.path.abspath(__file__)))
-ap = argparse.ArgumentParser(); ap.add_argument('-j', type=int, default=4); ap.add_argument('--benign', action='store_true'); ap.add_argument('ids', nargs='*')
+ap = argparse.ArgumentParser(); ap.add_argument('-j', type=int, default=4); ap.add_argument('--benign', action='store_true'); ap.add_argument('--checks', default=''); ap.add_argument('ids', nargs='*')
 a = ap.parse_args()
 base = os.path.join(ROOT, 'benign' if a.benign else 'seeded')
 ids = a.ids or sorted(d for d in os.listdir(base) if os.path.exists(os.path.join(base, d, 'patch.diff')) and (a.benign or os.path.exists(os.path.join(base, d, 'meta.json'))))
@@ -19,7 +19,7 @@ def one(i):
     try:
         r = subprocess.run(['git', '-C', wt, 'apply', os.path.join(base, i, 'patch.diff')], capture_output=True, text=True)
         if r.returncode: return i, {'apply': r.stderr[-200:]}
-        if a.benign: checks = ALL
+        if a.benign: checks = a.checks.split(',') if a.checks else ALL
         else: checks = json.load(open(os.path.join(base, i, 'meta.json')))['detected_by']
         env = dict(os.environ, VERIF_REPO=wt, VERIF_EVIDENCE_DIR=f'/dev/shm/rg-ev-{i}', VERIF_REPLAY_DIR=f'/dev/shm/rg-rp-{i}', VERIF_PROCS=str(max(2, 16 // a.j)))
         for d in (env['VERIF_EVIDENCE_DIR'], env['VERIF_REPLAY_DIR']): os.makedirs(d, exist_ok=True)
